@@ -163,6 +163,10 @@ func genWorldSet(r *rand.Rand, quick bool) *plan.Plan {
 		if r.IntN(6) == 0 {
 			k.LowMem = true
 		}
+		if w > 0 && r.IntN(3) == 0 {
+			// sort indexes on some columns in some worlds only: `sort` answers from them where they exist
+			k.SortCols = map[string][]string{"lay": [][]string{{"code"}, {"lat"}, {"level", "code"}, {"host"}}[r.IntN(4)]}
+		}
 		wp := &plan.Plan{Property: "C03", Knobs: k, Params: map[string]any{}}
 		inc := plan.Incarnation{Boot: "full", SchedSeed: r.Uint64()>>11 | 1}
 		prime := (pqs || aggs) && r.IntN(3) > 0
@@ -448,6 +452,9 @@ func describeWorld(w *plan.Plan) string {
 	fmt.Fprintf(&sb, "procs=%d card=%d maxseg=%d pqs=%v aggs=%v ", k.Procs, k.CardLimit, k.MaxSegFileSize, k.PQS != nil && *k.PQS, k.Aggs != nil && *k.Aggs)
 	if k.MemBytes > 0 {
 		fmt.Fprintf(&sb, "mem=%d ", k.MemBytes)
+	}
+	if len(k.SortCols) > 0 {
+		fmt.Fprintf(&sb, "sortidx=%v ", k.SortCols["lay"])
 	}
 	for _, inc := range w.Incs {
 		nq := 0
